@@ -1326,6 +1326,32 @@ def _normalised_vertices(ctx, repo):
            "the `points` property no longer normalises the stored vertices "
            "to an array", node=getter, label="points property normalises",
            nontrivial=False)
+    # new vertices are stored unconditionally or under an exact comparison
+    TOL = ("allclose", "isclose", "round", "around", "rint", "assert_allclose")
+    loose = None
+    for f in members:
+        if not isinstance(f, ast.FunctionDef):
+            continue
+        for n in walk(f):
+            if isinstance(n, ast.Assign) and any(
+                    is_self_attr(t, "points") or is_self_attr(t, raw)
+                    for t in n.targets):
+                a_ = n
+                while a_ is not f:
+                    par = a_.parent
+                    if isinstance(par, (ast.If, ast.While)) and any(
+                            isinstance(c_, ast.Call) and last_attr(c_) in TOL
+                            for c_ in ast.walk(par.test)):
+                        loose = loose or (f, n, par)
+                    a_ = par
+    ctx.ob("R15.2", loose is None,
+           "vertices handed to the filter are stored unconditionally or "
+           "under an exact comparison" if loose is None else
+           f"`{loose[0].name}` stores the new vertices only under "
+           f"`{short(loose[2].test, 50)}` – a tolerance comparison: changes "
+           "below the tolerance are ignored and the filter keeps "
+           "classifying against the old polygon", node=loose[2].test
+           if loose else getter, label="vertices stored exactly")
     leaks = []
     for f in members:
         if not isinstance(f, ast.FunctionDef) or f in (getter, setter):
@@ -2492,7 +2518,7 @@ def run(ctx):
              "inversion iff self.inverted (filter and copy); vertices read "
              "through the normalising property; filter() stateless; cache "
              "digests cover the classification inputs (logical array order)",
-             minimum=25)
+             minimum=26)
     ctx.rule("R15.3", "save/_load agree on keys, attribute mapping, header "
              "and index parsing, first-'=' split; >= 17 significant digits",
              minimum=30)
@@ -2686,6 +2712,12 @@ MUTANTS = [
      ('        with filename.open("r", errors="replace") as fd:',
       '        with filename.open("r", encoding="latin-1") as fd:'),
      "R15.3"),
+    ("restored vertices ignored when merely close (seeded C15_17)", POLY,
+     ('        self.points = state["points"]\n',
+      '        points = np.array(state["points"], dtype=np.float64)\n'
+      '        if (points.shape != self.points.shape\n'
+      '                or not np.allclose(points, self.points)):\n'
+      '            self.points = points\n'), "R15.2"),
     ("inversion result discarded", POLY,
      ("            np.invert(f, f)\n", "            np.invert(f)\n"),
      "R15.2"),
@@ -2809,6 +2841,11 @@ TWINS = [
      ("        if self.inverted:\n            np.invert(f, f)\n",
       "        if self.inverted == True:  # noqa: E712\n"
       "            np.invert(f, f)\n")),
+    ("restored vertices stored unless exactly equal", POLY,
+     ('        self.points = state["points"]\n',
+      '        points = np.array(state["points"], dtype=np.float64)\n'
+      '        if not np.array_equal(points, self.points):\n'
+      '            self.points = points\n')),
     ("filter returns the complement by expression", POLY,
      ("            np.invert(f, f)\n", "            f = ~f\n")),
     ("save with f-strings", POLY,
